@@ -39,8 +39,10 @@ import (
 //  A2  results of calls are fresh objects (not aliases of the operands), and a callee does not store its
 //      arguments into the objects it is given -- inherited from the previous extractor; in particular the
 //      operand that an operation hands back when it already carries an error (hasErr) is not tracked;
-//  A3  functions outside the repository write nothing reachable from their arguments except
-//      copy/delete (booked); closures are analysed as part of their enclosing function;
+//  A3  functions outside the repository (all listed in `calls` as "ext:…", the list is pinned by a Lean theorem)
+//      write nothing reachable from their arguments -- except copy/delete and sort.Slice/Sort/…, which are
+//      booked as element writes of their first argument; closures are analysed as part of their
+//      enclosing function;
 //  A4  a local that is assigned from a pure access path, a type assertion or a range over an access path
 //      rooted at parameter p is an alias of p (flow-insensitively); re-binding a parameter name is ignored;
 //  A5  a field of a fresh literal initialised from ANY expression rooted at p counts as referring to p
@@ -52,10 +54,10 @@ type write struct {
 }
 
 type call struct {
-	name  string   // source text of the callee (documentation)
-	keys  []string // resolved callees in the repository (type-based)
-	ext   string   // "ext:…" if the callee is (also) outside the repository
-	roots []int    // bitmask of root parameters of receiver (if method call) followed by each argument
+	name  string                    // source text of the callee (documentation)
+	keys  []string                  // resolved callees in the repository (type-based)
+	ext   string                    // "ext:…" if the callee is (also) outside the repository
+	roots []int                     // bitmask of root parameters of receiver (if method call) followed by each argument
 	lits  []map[int]map[string]bool // per actual: fresh literal whose field f was initialised from parameter i
 	paths []string                  // per actual: its access path below the root ("" = the root itself)
 	meth  bool
@@ -154,6 +156,10 @@ func (t *typeCtx) implementers(it types.Type, name string) []string {
 	t.implMem[mk] = out
 	return out
 }
+
+// functions outside the repository that write the elements of their first argument (booked like copy/delete)
+var extWritesArg0 = map[string]bool{"ext:sort.Slice": true, "ext:sort.SliceStable": true, "ext:sort.Sort": true,
+	"ext:sort.Stable": true, "ext:sort.Ints": true, "ext:sort.Strings": true, "ext:rand.Shuffle": true}
 
 func extFuncName(f *types.Func) string {
 	sig := f.Type().(*types.Signature)
@@ -590,6 +596,10 @@ func summarize(f *fn) *summary {
 			c := call{name: src(a.Fun)}
 			if info != nil {
 				tc.resolve(info, &c, a)
+			}
+			if extWritesArg0[c.ext] && len(a.Args) > 0 {
+				// sort.Slice & co permute the elements of their first argument
+				record(&ast.IndexExpr{X: a.Args[0], Index: ast.NewIdent("_")})
 			}
 			switch fun := a.Fun.(type) {
 			case *ast.SelectorExpr:
